@@ -45,6 +45,12 @@ func RecordedBookOptions(header *options.HeaderOption, bookOpts *tableaupb.Workb
 	return protogen.VerifRecordedBookOptions(header, bookOpts)
 }
 
+// RecordedDocOptions is what protogen records as workbook options of a
+// document (YAML/XML) workbook.
+func RecordedDocOptions(header *options.HeaderOption, bookOpts *tableaupb.WorkbookOptions) *tableaupb.WorkbookOptions {
+	return protogen.VerifRecordedDocOptions(header, bookOpts)
+}
+
 // ParseFieldValue parses one cell text for a field (xproto.ParseFieldValue).
 func ParseFieldValue(fd protoreflect.FieldDescriptor, rawValue string, locationName string) (v protoreflect.Value, present bool, err error) {
 	return xproto.ParseFieldValue(fd, rawValue, locationName)
